@@ -168,6 +168,8 @@ def run_driver(case, obs):
                 slack = np.where(npit[:, NODE_TYPE] == P)[0]
                 cur = [bp[:, MDOTINIT], npit[:, PINIT], npit[slack, MDOTSLACKINIT]]
                 for v, (c, o, nw, up) in enumerate(zip(cur, state["old"][niter - 1], state["new"][niter - 1], inc)):
+                    # an accepted (converging) step is kept as a whole; otherwise variables whose error rose go back
+                    up = up and not got_conv
                     want = o if up else nw
                     if up:
                         obs.count("driver_step_rejections")
